@@ -1033,7 +1033,8 @@ def __setstate__(self, state):
     ############################
 
     if self._readonly_:
-        self.as_readonly()
+        self._readonly_ = False     # otherwise as_readonly() has nothing to do
+        self.as_readonly(recursive=False)   # derivatives are expanded below
     else:
         if not mask_is_writable:
             self._mask_ = self._mask_.copy()
@@ -1057,6 +1058,7 @@ def __setstate__(self, state):
             new_deriv._mask_ = self._mask_
 
         if deriv['_readonly_']:
+            new_deriv._readonly_ = False    # its arrays might have been replaced
             new_deriv.as_readonly()
 
         self.insert_deriv(key, new_deriv)
